@@ -328,6 +328,7 @@ func checkC06(c *Ctx) {
 	runWHReset(c, "WH-reset")
 	runWHChild(c, "WH-child")
 	runWHGroups(c, "WH-groups")
+	runTD(c, "TD", map[string]bool{"write": true, "add": true})
 	r.floor("WH-empty", len(c.U.TC), "one ParquetWriter.Write per generated package")
 	r.assume("the reader is sequential from byte 4 (never seeks to chunk offsets) — read from the template, see DESIGN.md §0")
 }
